@@ -100,6 +100,26 @@ def canonicalise(project):
         cur = binding_fingerprints(fi.node)
         missing = [r for r in entry['order'] if r not in cur]
         new = [c for c in cur if c not in ref]
+        # a reference local whose binding sites are now shared between itself and a new
+        # name (inlining a helper renames its colliding locals): merge them again
+        merged = {}
+        for c in list(new):
+            for r in entry['order']:
+                if r in cur and r not in merged.values() and \
+                        sorted(cur[r] + cur[c]) == sorted(tuple(ref[r])) and cur[c]:
+                    merged[c] = r
+                    break
+        if merged:
+            for n in ast.walk(fi.node):
+                if isinstance(n, ast.Name) and n.id in merged:
+                    n.id = merged[n.id]
+                elif isinstance(n, ast.ExceptHandler) and n.name in merged:
+                    n.name = merged[n.name]
+            for c, r in merged.items():
+                applied.append('%s: %s -> %s (merged)' % (key, c, r))
+            cur = binding_fingerprints(fi.node)
+            missing = [r for r in entry['order'] if r not in cur]
+            new = [c for c in cur if c not in ref]
         if not missing or not new:
             continue
         order = first_use_order(fi.node)
